@@ -19,12 +19,12 @@ fn check_char_inner(c: char) -> Option<String> {
     if r2 != r {
         return Some(format!("not idempotent at U+{:04X}: {:?} -> {:?}", c as u32, r, r2));
     }
-    // "changes only the characters in its table": the KyTea table covers printable ASCII, the half-width / full-width forms
-    // block and a handful of dash-like characters; control characters (NUL included) and everything else map to themselves
+    // control characters (NUL, TAB, CR, LF, ... U+0000..U+001F, U+007F..U+009F) have no full-width form: a width normaliser
+    // leaves them alone (a rewritten NUL turns a line the pipeline must reject into an accepted one; rewritten CR / LF move
+    // the line breaks). Nothing is demanded of other characters: which of them the table holds is the table's business.
     let u = c as u32;
-    let in_domain = (0x20..=0x7E).contains(&u) || (0x2010..=0x2015).contains(&u) || u == 0x2212 || u == 0x2500 || (0xFF00..=0xFFEF).contains(&u);
-    if !in_domain && r != s {
-        return Some(format!("U+{:04X} is outside the table (printable ASCII, half-width forms, dashes) but is changed to {:?}", u, r));
+    if (u <= 0x1F || (0x7F..=0x9F).contains(&u)) && r != s {
+        return Some(format!("the control character U+{:04X} is changed to {:?}", u, r));
     }
     if c != '\0' && r.contains('\0') {
         return Some(format!("U+{:04X} maps to NUL", c as u32));
